@@ -13,3 +13,5 @@ open UtilModel UtilModel.Routine
 #print axioms UtilModel.Routine.C05b_obs
 #print axioms UtilModel.Routine.C05c_obs
 #print axioms UtilModel.Routine.C05l_obs
+#print axioms UtilModel.Routine.C05g_obs
+#print axioms UtilModel.Routine.C05_obs
